@@ -174,6 +174,31 @@ static void links_case() {
   std::printf("%s | %s %s all=%d\n", ops.c_str(), hex(lg.buf).c_str(), fin.empty() ? "-" : fin.c_str(), (int)vp.AllEntriesExported());
 }
 
+// ------------------------------------------------------------------ EscapeJSON on arbitrary byte strings
+static void escape_case() {
+  std::string s;
+  int n = below(12);
+  for (int i = 0; i < n; ++i) {
+    int k = below(14);
+    if (k == 0) s += "\"\\\n\r\t"[below(5)];
+    else if (k == 1) s += (char)below(32);                                   // control
+    else if (k == 2) s += (char)(32 + below(96));                            // ASCII
+    else if (k == 3) { s += (char)(0xC2 + below(30)); s += (char)(0x80 + below(64)); }                       // well-formed 2
+    else if (k == 4) { s += (char)(0xE1 + below(12)); s += (char)(0x80 + below(64)); s += (char)(0x80 + below(64)); }   // well-formed 3
+    else if (k == 5) { s += (char)(0xF1 + below(3)); for (int j = 0; j < 3; ++j) s += (char)(0x80 + below(64)); }       // well-formed 4
+    else if (k == 6) { static const unsigned char L[] = {0xE0, 0xED, 0xF0, 0xF4, 0xC0, 0xC1, 0xF5, 0xFF, 0x80, 0xBF};
+                       s += (char)L[below(10)]; int m = below(4); for (int j = 0; j < m; ++j) s += (char)(0x80 + below(64)); }  // boundary leads
+    else if (k == 7) { s += (char)0xE0; s += (char)(below(2) ? 0x9F : 0xA0); s += (char)0x80; }              // overlong / minimal
+    else if (k == 8) { s += (char)0xED; s += (char)(below(2) ? 0x9F : 0xA0); s += (char)0x80; }              // last before / first surrogate
+    else if (k == 9) { s += (char)0xF4; s += (char)(below(2) ? 0x8F : 0x90); s += (char)0x80; s += (char)0x80; }
+    else if (k == 10) { s += (char)0xF0; s += (char)(below(2) ? 0x8F : 0x90); s += (char)0x80; s += (char)0x80; }
+    else if (k == 11) { s += (char)(0xC2 + below(51)); }                     // lead byte, possibly truncated by what follows
+    else s += (char)below(256);
+  }
+  std::string out = JW::EscapeJSON(s);
+  std::printf("EB %s | %s\n", hex(s).c_str(), hex(out).c_str());
+}
+
 int main(int argc, char **argv) {
   if (argc < 4) { std::fprintf(stderr, "usage: h_c20 json|links seed n\n"); return 2; }
   std::string mode = argv[1];
@@ -182,6 +207,7 @@ int main(int argc, char **argv) {
   for (int i = 0; i < n; ++i) {
     if (mode == "json") json_case();
     else if (mode == "links") links_case();
+    else if (mode == "escape") escape_case();
     else return 2;
   }
   return 0;
